@@ -106,8 +106,14 @@ CAND = ("forall(lambda i: implies(0 <= i and i < len({seq}), {seq}[i] is not Non
 # ------------------------------------------------------------------------------------------------ token classes
 contract("models.Token.from_match",
     types={"m": "obj<Match>", "extra": "dict[str,str]", "offset": "int"}, returns="obj<Token>", prop="C12",
+    func_params={},
     requires={"m": "m is not None and m_has(m, 1) and offset is not None"},
-    ensures={})        # constructed with **extra: outside the subset; CAND below is the assumed composition
+    ensures={
+        # token offsets come from regex group 1 of the extractor match, shifted by `offset`; the token text is that group
+        "start": "result is not None and result.start == m_start(m, 1) + offset",
+        "end": "result.end == m_end(m, 1) + offset",
+        "text": "str(result) == m[1]",
+    })
 
 assumed("tokenizers.Tokenizer.extract_tokens",
     types={"self": "obj<Tokenizer>", "text": "str"}, returns="seq[obj<Token>]",
